@@ -1104,8 +1104,8 @@ func (e *escaper) escapeText(c context, n *parse.TextNode) context {
 		// one longer name where the transition functions see two. The markup is kept as
 		// written, but actions that depend on the name are refused (sanitizerForContext).
 		if c.state == stateTag {
-			// (An end tag has no element of its own to be mistaken about.)
-			c.element.split = c.element.name != "" || len(c.element.names) > 0
+			// (In an end tag, too: `</b{{if .C}}data-x="{{.V}}"{{end}}>` has no attribute.)
+			c.element.split = true
 		} else {
 			c.attr.split, c.element.attrSplit = true, true
 		}
